@@ -2,6 +2,7 @@ package main
 
 import (
 	"bufio"
+	"bytes"
 	stdjson "encoding/json"
 	"errors"
 	"flag"
@@ -10,6 +11,7 @@ import (
 	"math/rand"
 	"os"
 	"path/filepath"
+	"strings"
 
 	"github.com/gabriel-vasile/mimetype"
 )
@@ -91,7 +93,7 @@ func readervecMain(args []string) int {
 	rep := newReport("readervec")
 	tmp, _ := os.MkdirTemp("", "vdrive-reader")
 	defer os.RemoveAll(tmp)
-	const unit = 2
+	units := []int{2, 256, 512} // the model's abstract byte is 2 / 256 / 512 real bytes: limits and fault offsets on 512-byte boundaries too
 	var n, faults int64
 	err := tlcVectorLines(*in, func(b []byte) {
 		var v readerVec
@@ -106,46 +108,55 @@ func readervecMain(args []string) int {
 			stdjson.Unmarshal(h[2], &st.e)
 			steps = append(steps, st)
 		}
-		for pi, payload := range readerPayloads {
-			data := exact(payload[:v.D*unit])
-			limit := uint32(v.L * unit)
-			mimetype.SetLimit(limit)
-			sr := &scriptedReader{data: data, steps: steps, unit: unit}
-			got, gerr := mimetype.DetectReader(sr)
-			n++
-			key := fmt.Sprintf("payload=%d data=%d limit=%d fault=%d script=%v", pi, len(data), limit, v.F*unit, steps)
-			bad := func(kind, detail string) {
-				rep.violate(Violation{Property: "C05", Kind: kind, Text: key, Limit: int64(limit), Detail: detail, Key: "C05|" + kind + "|" + key})
-			}
-			if limit > 0 && sr.off > int(limit) {
-				bad("over-read", fmt.Sprintf("%d bytes taken from the reader, limit %d", sr.off, limit))
-			}
-			if sr.extra > 0 || sr.short > 0 || sr.off != v.Off*unit {
-				rep.drift(fmt.Sprintf("%s: real reads %v (extra %d, short %d, consumed %d), model consumed %d", key, sr.rooms, sr.extra, sr.short, sr.off, v.Off*unit))
-			}
-			if v.E == "Fault" {
-				faults++
-				if gerr != errSentinel {
-					bad("fault-not-surfaced", fmt.Sprintf("reader failed before the header was complete; DetectReader returned err=%v type=%s", gerr, got))
-				} else if got == nil || got.String() != "application/octet-stream" || got.Parent() != nil {
-					bad("fault-with-type", fmt.Sprintf("error returned together with %s", got))
+		for ui, unit := range units {
+			for pi, payload := range readerPayloads {
+				if ui > 0 && pi%3 != int(n)%3 {
+					continue // the large units on a third of the payloads per vector
 				}
-			} else {
-				if gerr != nil {
-					bad("spurious-error", fmt.Sprintf("no failure before the header was complete, yet err=%v", gerr))
+				if need := v.D * unit; len(payload) < need {
+					payload = append(append([]byte{}, payload...), bytes.Repeat([]byte("filler, "), need/8+1)...)
+				}
+				data := exact(payload[:v.D*unit])
+				limit := uint32(v.L * unit)
+				mimetype.SetLimit(limit)
+				sr := &scriptedReader{data: data, steps: steps, unit: unit}
+				got, gerr := mimetype.DetectReader(sr)
+				n++
+				key := fmt.Sprintf("payload=%d data=%d limit=%d fault=%d script=%v", pi, len(data), limit, v.F*unit, steps)
+				bad := func(kind, detail string) {
+					rep.violate(Violation{Property: "C05", Kind: kind, Text: key, Limit: int64(limit), Detail: detail, Key: "C05|" + kind + "|" + key})
+				}
+				if limit > 0 && sr.off > int(limit) {
+					bad("over-read", fmt.Sprintf("%d bytes taken from the reader, limit %d", sr.off, limit))
+				}
+				if ui == 0 && (sr.extra > 0 || sr.short > 0 || sr.off != v.Off*unit) {
+					rep.drift(fmt.Sprintf("%s: real reads %v (extra %d, short %d, consumed %d), model consumed %d", key, sr.rooms, sr.extra, sr.short, sr.off, v.Off*unit))
+				}
+				if v.E == "Fault" {
+					faults++
+					if gerr != errSentinel {
+						bad("fault-not-surfaced", fmt.Sprintf("reader failed before the header was complete; DetectReader returned err=%v type=%s", gerr, got))
+					} else if got == nil || got.String() != "application/octet-stream" || got.Parent() != nil {
+						bad("fault-with-type", fmt.Sprintf("error returned together with %s", got))
+					}
 				} else {
-					want := mimetype.Detect(exact(data[:v.N*unit]))
-					if got.String() != want.String() || got.Extension() != want.Extension() {
-						bad("reader-differs-from-bytes", fmt.Sprintf("DetectReader=%s Detect(header)=%s", got, want))
+					if gerr != nil {
+						bad("spurious-error", fmt.Sprintf("no failure before the header was complete, yet err=%v", gerr))
+					} else {
+						want := mimetype.Detect(exact(data[:v.N*unit]))
+						if got.String() != want.String() || got.Extension() != want.Extension() {
+							bad("reader-differs-from-bytes", fmt.Sprintf("DetectReader=%s Detect(header)=%s", got, want))
+						}
 					}
 				}
-			}
-			if n%997 == 1 {
-				rep.sample(map[string]any{"case": key, "model_error": v.E, "result": fmt.Sprint(got), "err": fmt.Sprint(gerr)})
+				if n%997 == 1 {
+					rep.sample(map[string]any{"case": key, "model_error": v.E, "result": fmt.Sprint(got), "err": fmt.Sprint(gerr)})
+				}
 			}
 		}
 		// DetectFile over the same data (no fault): same as Detect on the bytes
 		if v.F == 99 && len(v.H) <= 1 {
+			const unit = 2
 			data := readerPayloads[n%int64(len(readerPayloads))][:v.D*unit]
 			p := filepath.Join(tmp, "f")
 			os.WriteFile(p, data, 0o600)
@@ -187,6 +198,39 @@ func readervecMain(args []string) int {
 						rep.violate(Violation{Property: "C05", Kind: "osfile-reader-differs-from-bytes", Text: fmt.Sprintf("%q limit %d", data, lim), Limit: int64(lim), Detail: fmt.Sprintf("DetectReader(*os.File)=%s err=%v Detect=%s", got2, gerr2, want), Key: fmt.Sprintf("C05|osfile|%x|%d", data, lim)})
 					}
 				}
+			}
+		}
+	}
+	// readers that were already read from: DetectReader sees (and may take) only what the reader still delivers
+	for _, payload := range filePayloads {
+		for _, k := range []int{1, 4, 9} {
+			if k >= len(payload) {
+				continue
+			}
+			for _, lim := range []int{0, 5, 3072} {
+				mimetype.SetLimit(uint32(lim))
+				rest := payload[k:]
+				want := mimetype.Detect(exact(rest))
+				p := filepath.Join(tmp, "h")
+				os.WriteFile(p, payload, 0o600)
+				f, _ := os.Open(p)
+				f.Seek(int64(k), io.SeekStart)
+				readers := map[string]io.ReadSeeker{"bytes.Reader": bytes.NewReader(payload), "strings.Reader": strings.NewReader(string(payload)),
+					"io.SectionReader": io.NewSectionReader(bytes.NewReader(payload), 0, int64(len(payload))), "os.File": f}
+				for name, r := range readers {
+					r.Seek(int64(k), io.SeekStart)
+					got, gerr := mimetype.DetectReader(r)
+					pos, _ := r.Seek(0, io.SeekCurrent)
+					n++
+					what := fmt.Sprintf("%s positioned at %d of %q limit %d", name, k, payload, lim)
+					if gerr != nil || got.String() != want.String() {
+						rep.violate(Violation{Property: "C05", Kind: "positioned-reader-differs-from-bytes", Text: what, Limit: int64(lim), Detail: fmt.Sprintf("DetectReader=%s err=%v, Detect on the delivered bytes=%s", got, gerr, want), Key: "C05|positioned|" + what})
+					}
+					if maxPos := int64(len(payload)); lim > 0 && pos > int64(k+lim) || pos > maxPos || pos < int64(k) {
+						rep.violate(Violation{Property: "C05", Kind: "positioned-reader-over-read", Text: what, Limit: int64(lim), Detail: fmt.Sprintf("reader position %d after the call (started at %d)", pos, k), Key: "C05|positioned-pos|" + what})
+					}
+				}
+				f.Close()
 			}
 		}
 	}
